@@ -43,6 +43,11 @@ Definition tramp_of (plt : bool) : val := if plt then PRET else MRET.
 Definition mem := N -> val.
 Definition upd (m : mem) (a : N) (v : val) : mem := fun x => if x =? a then v else m x.
 
+(* how replay's fix-up table (utils/fstack.c fixup_syms) will classify a record: by the name of the
+   function; the jmp_buf address is ghost information used only by the ground truth of Part 2 *)
+Inductive skd := SNormal | SSetjmp (jb : N) | SLongjmp (jb : N).
+Inductive sev := SEntry (k : skd) | SExit (d : N).
+
 (* struct mcount_ret_stack, the fields that matter here *)
 Record ent := {
   e_loc : N;            (* parent_loc (slot number)                               *)
@@ -52,25 +57,26 @@ Record ent := {
   e_depth : N;          (* depth = record_idx at entry                            *)
   e_lj : bool;          (* MCOUNT_FL_LONGJMP                                      *)
   e_written : bool;     (* MCOUNT_FL_WRITTEN                                      *)
-  e_end : N             (* end_time: 0 = not set; longjmp stores the jmp_buf address here *)
+  e_end : N;            (* end_time: 0 = not set; longjmp stores the jmp_buf address here *)
+  e_kind : skd          (* ghost: what kind of function child_ip is, and on which jmp_buf it was called *)
 }.
 Definition set_written (e : ent) : ent :=
   {| e_loc := e_loc e; e_ip := e_ip e; e_plt := e_plt e; e_child := e_child e; e_depth := e_depth e;
-     e_lj := e_lj e; e_written := true; e_end := e_end e |}.
+     e_lj := e_lj e; e_written := true; e_end := e_end e; e_kind := e_kind e |}.
 Definition set_end (e : ent) (t : N) : ent :=
   {| e_loc := e_loc e; e_ip := e_ip e; e_plt := e_plt e; e_child := e_child e; e_depth := e_depth e;
-     e_lj := e_lj e; e_written := e_written e; e_end := t |}.
+     e_lj := e_lj e; e_written := e_written e; e_end := t; e_kind := e_kind e |}.
 Definition set_lj (e : ent) (b : bool) : ent :=
   {| e_loc := e_loc e; e_ip := e_ip e; e_plt := e_plt e; e_child := e_child e; e_depth := e_depth e;
-     e_lj := b; e_written := e_written e; e_end := e_end e |}.
+     e_lj := b; e_written := e_written e; e_end := e_end e; e_kind := e_kind e |}.
 Definition set_ip (e : ent) (v : val) : ent :=
   {| e_loc := e_loc e; e_ip := v; e_plt := e_plt e; e_child := e_child e; e_depth := e_depth e;
-     e_lj := e_lj e; e_written := e_written e; e_end := e_end e |}.
+     e_lj := e_lj e; e_written := e_written e; e_end := e_end e; e_kind := e_kind e |}.
 
 Inductive rty := ENTRY | EXIT.
-Record rec := { r_ty : rty; r_depth : N; r_child : N }.
-Definition entry_rec (e : ent) : rec := {| r_ty := ENTRY; r_depth := e_depth e; r_child := e_child e |}.
-Definition exit_rec (e : ent) : rec := {| r_ty := EXIT; r_depth := e_depth e; r_child := e_child e |}.
+Record rec := { r_ty : rty; r_depth : N; r_child : N; r_kind : skd }.
+Definition entry_rec (e : ent) : rec := {| r_ty := ENTRY; r_depth := e_depth e; r_child := e_child e; r_kind := e_kind e |}.
+Definition exit_rec (e : ent) : rec := {| r_ty := EXIT; r_depth := e_depth e; r_child := e_child e; r_kind := e_kind e |}.
 
 (* the per-thread data + the global jmpbuf list + the stack memory + what was written to the buffer.
    rs is the shadow stack, TOP FIRST (rs = rstack[idx-1] :: ... :: rstack[0]). *)
@@ -182,16 +188,16 @@ Definition rehook_exception (s : lst) (fa : N) : lst :=
   {| rs := l'; ridx := ri; inexc := inexc s; m := rehook_all l' (m s); jbs := jbs s; jpc := jpc s; out := o |}.
 
 (* ---------------------------------------------------------------- hooks *)
-Definition new_ent (s : lst) (plt : bool) (child loc : N) : ent :=
+Definition new_ent (s : lst) (plt : bool) (child loc : N) (kind : skd) : ent :=
   {| e_loc := loc; e_ip := m s loc; e_plt := plt; e_child := child; e_depth := ridx s;
-     e_lj := false; e_written := false; e_end := 0 |}.
+     e_lj := false; e_written := false; e_end := 0; e_kind := kind |}.
 
 (* __mcount_entry(parent_loc = loc, child); fa = the word parent_loc[-1] *)
 Definition mcount_entry (s0 : lst) (child loc fa : N) : lst :=
   let s := if inexc s0
            then with_exc (rehook_exception s0 (if fa <? loc then loc - 1 else fa)) false
            else s0 in
-  let e := new_ent s false child loc in
+  let e := new_ent s false child loc SNormal in
   let l := e :: rs s in
   {| rs := l; ridx := ridx s + 1; inexc := inexc s;
      m := auto_restore (inexc s) l (upd (m s) loc MRET);
@@ -222,10 +228,14 @@ Definition kind_flags (k : skind) : N :=
   | KFlush => PLT_FL_FLUSH | KExcept => PLT_FL_EXCEPT
   end.
 Definition is_flush k := match k with KLongjmp | KFlush => true | _ => false end.
+Definition kind_of (k : skind) (arg : N) : skd :=
+  match k with KSetjmp => SSetjmp arg | KLongjmp => SLongjmp arg | _ => SNormal end.
 
-(* __plthook_entry(ret_addr = loc, child), ARG1 = arg *)
-Definition plthook_entry (s : lst) (k : skind) (child loc arg : N) : lst :=
-  let e := new_ent s true child loc in
+(* __plthook_entry(ret_addr = loc, child), ARG1 = arg.  Since fix (plthook: landing pads) a call made while
+   in_exception is set first drops the entries of the frames unwound so far (parent_loc <= ret_addr),
+   exactly as __mcount_entry does. *)
+Definition plthook_push (s : lst) (k : skind) (child loc arg : N) : lst :=
+  let e := new_ent s true child loc (kind_of k arg) in
   let m1 := auto_restore (inexc s) (e :: rs s) (upd (m s) loc PRET) in
   let ri := ridx s + 1 in
   (* PLT_FL_FLUSH: record_trace_data(mtdp, rstack, NULL) with end_time = 0 *)
@@ -243,6 +253,8 @@ Definition plthook_entry (s : lst) (k : skind) (child loc arg : N) : lst :=
          jbs := jbs s; jpc := jpc s; out := o |}
   | _ => {| rs := e1 :: anc1; ridx := ri; inexc := inexc s; m := m1; jbs := jbs s; jpc := jpc s; out := o |}
   end.
+Definition plthook_entry (s0 : lst) (k : skind) (child loc arg : N) : lst :=
+  plthook_push (if inexc s0 then with_exc (rehook_exception s0 loc) false else s0) k child loc arg.
 
 (* __plthook_exit, including the `again` loop for MCOUNT_FL_LONGJMP (restore_jmpbuf_rstack) *)
 Definition plthook_exit (s : lst) : option (lst * val) :=
@@ -259,10 +271,14 @@ Definition plthook_exit (s : lst) : option (lst * val) :=
       else exit_common true s
   end.
 
-(* bodies of the __cxa_throw / __cxa_rethrow / _Unwind_Resume wrappers before the real call *)
+(* bodies of the __cxa_throw / __cxa_rethrow wrappers before the real call *)
 Definition do_throw (s : lst) : lst :=
   {| rs := rs s; ridx := ridx s; inexc := true; m := restore_all (rs s) (m s);
      jbs := jbs s; jpc := jpc s; out := out s |}.
+(* body of the _Unwind_Resume wrapper before the real call (since fix 0bd540c): the entries of the frames
+   unwound so far - parent_loc at or below the wrapper's own return-address slot - are dropped first *)
+Definition do_resume (s : lst) (slot : N) : lst :=
+  do_throw (if inexc s then rehook_exception s slot else s).
 (* body of __cxa_begin_catch after the real call (frame_addr already sanity-checked) *)
 Definition do_catch (s : lst) (fa : N) : lst :=
   if inexc s then with_exc (rehook_exception s fa) false else s.
@@ -336,7 +352,7 @@ Definition lstep (s : lst) (o : op) : option (lst * obs) :=
   | Throw => Some (do_throw s, obs0)
   | Unwind => Some (s, obs0)
   | Resume sl r =>
-      let s1 := do_throw (with_m s (upd (m s) sl r)) in
+      let s1 := do_resume (with_m s (upd (m s) sl r)) sl in
       Some (s1, {| o_target := m s1 sl; o_pops := 0 |})
   | Catch fa => Some (do_catch s fa, obs0)
   | Poke sl v => Some (with_m s (upd (m s) sl v), obs0)
@@ -403,11 +419,11 @@ Definition expect := option (N * N).
 
 (* rstep returns None when the operation is not a move of a real program in this state, or leaves the
    domain in which the property is claimed (each exclusion is a *_refuted statement or an assumption):
-     - a cleanup pad calls _Unwind_Resume at a slot still named by the shadow entry of a dropped frame;
+     - a cleanup pad calls _Unwind_Resume at a slot BELOW the return slot of a frame dropped before
+       (never the case in compiled code, where a frame makes all its calls at one stack depth);
      - a traced function entered while in_exception hands a frame address that does not separate
        dropped from live frames (e.g. -mfentry: the word below the slot is not a frame pointer);
-     - PLT calls / tail calls while in_exception; setjmp / longjmp / nested throw while an exception
-       is in flight;
+     - tail calls while in_exception; setjmp / longjmp / nested throw while an exception is in flight;
      - tail-call chains mixing PLT and mcount kinds;
      - _Unwind_RaiseException called through the PLT of the traced module.                         *)
 Definition rstep (st : rstk) (o : op) : option (rstk * expect) :=
@@ -424,6 +440,17 @@ Definition rstep (st : rstk) (o : op) : option (rstk * expect) :=
   | UCall s r =>
       if below_top (frames st) s && valid_ra r then Some (push st s r [], None) else None
   | Plt kd k s r arg =>
+      if below_top (frames st) s && valid_ra r && exc st then
+        (* a library call from a landing pad (e.g. an inlined destructor): like a traced entry, it first drops
+           the frames unwound so far, which must lie at or below its own return slot *)
+        match kd with
+        | KNone | KFlush =>
+            if (extra st =? 0) && forallb (fun x => x <=? s) (stale st)
+            then Some (bump (mk st (fresh st s r [true] :: frames st) true false 1 []), None)
+            else None
+        | _ => None
+        end
+      else
       if below_top (frames st) s && valid_ra r && negb (exc st) then
         match kd with
         | KSetjmp =>
@@ -485,8 +512,10 @@ Definition rstep (st : rstk) (o : op) : option (rstk * expect) :=
       | [] => None
       end
   | Resume s r =>
-      if flight st && below_top (frames st) s && valid_ra r && (extra st =? 0) && negb (mem_N s (stale st))
-      then Some (mk st (frames st) true true 0 (stale st), Some (r, 0)) else None
+      (* compiled code calls _Unwind_Resume at the frame's call-site slot: no dropped frame lies above it *)
+      if flight st && below_top (frames st) s && valid_ra r && (extra st =? 0)
+         && forallb (fun x => x <=? s) (stale st)
+      then Some (mk st (frames st) true true 0 [], Some (r, 0)) else None
   | Catch fa =>
       (* the frame address of the catching frame lies just below its return slot *)
       match frames st with
@@ -654,53 +683,70 @@ Fixpoint bad_indices {A} (f : A -> bool) (l : list A) (i : nat) : list nat :=
   end.
 
 (* ================================================================ Part 2: replay side *)
-(* one record of a task's stream as replay classifies it (fixup_syms) *)
-Inductive skd := SNormal | SSetjmp (jb : N) | SLongjmp (jb : N).
-Inductive sev := SEntry (k : skd) | SExit.
+From Coq Require Import ZArith.
+(* one record of a task's stream as replay classifies it (fixup_syms); an EXIT carries the depth field
+   of the record *)
 
-(* utils/fstack.c: stack_count / display_depth of the task + the two file-level statics *)
-Record rp := { stack_count : N; display_depth : N; setjmp_depth : N; setjmp_count : N }.
-Definition rp0 := {| stack_count := 0; display_depth := 0; setjmp_depth := 0; setjmp_count := 0 |}.
+(* utils/fstack.c: stack_count / display_depth / longjmp_pending of the task + the two file-level statics
+   (C ints: modelled in Z) *)
+Record rp := { stack_count : Z; display_depth : Z; setjmp_depth : Z; setjmp_count : Z; lj_pending : bool }.
+Definition rp0 := {| stack_count := 0; display_depth := 0; setjmp_depth := 0; setjmp_count := 0; lj_pending := false |}.
 
 (* returns the new state and the depth the record is shown at (replay.c: ENTRY lines use the depth
-   before fstack_update, EXIT lines the depth after it) *)
+   before fstack_update, EXIT lines the depth after it).
+   fstack_update_stack_count (since fix a7444cc): the EXIT after a longjmp is the matching setjmp's; its
+   depth field corrects the guess "latest setjmp" made by the LONGJMP fix-up. *)
 Definition rp_step (p : rp) (e : sev) : rp * N :=
   match e with
   | SEntry k =>
-      let sc := stack_count p + 1 in                          (* fstack_update_stack_count *)
-      let shown := display_depth p in
+      let sc := (stack_count p + 1)%Z in                          (* fstack_update_stack_count *)
+      let shown := Z.to_N (display_depth p) in
       match k with
-      | SNormal => ({| stack_count := sc; display_depth := display_depth p + 1;
-                       setjmp_depth := setjmp_depth p; setjmp_count := setjmp_count p |}, shown)
-      | SSetjmp _ => ({| stack_count := sc; display_depth := display_depth p + 1;
-                         setjmp_depth := display_depth p + 1; setjmp_count := sc |}, shown)
+      | SNormal => ({| stack_count := sc; display_depth := (display_depth p + 1)%Z;
+                       setjmp_depth := setjmp_depth p; setjmp_count := setjmp_count p;
+                       lj_pending := lj_pending p |}, shown)
+      | SSetjmp _ => ({| stack_count := sc; display_depth := (display_depth p + 1)%Z;
+                         setjmp_depth := (display_depth p + 1)%Z; setjmp_count := sc;
+                         lj_pending := lj_pending p |}, shown)
       | SLongjmp _ => ({| stack_count := setjmp_count p; display_depth := setjmp_depth p;
-                          setjmp_depth := setjmp_depth p; setjmp_count := setjmp_count p |}, shown)
+                          setjmp_depth := setjmp_depth p; setjmp_count := setjmp_count p;
+                          lj_pending := true |}, shown)
       end
-  | SExit =>
-      let d := dec (display_depth p) in
-      ({| stack_count := dec (stack_count p); display_depth := d;
-          setjmp_depth := setjmp_depth p; setjmp_count := setjmp_count p |}, d)
+  | SExit d =>
+      let diff := if lj_pending p then (stack_count p - 1 - Z.of_N d)%Z else 0%Z in
+      let sc1 := (stack_count p - diff)%Z in
+      let dd1 := if (diff =? 0)%Z then display_depth p else Z.max 0 (display_depth p - diff) in
+      let sc2 := if (0 <? sc1)%Z then (sc1 - 1)%Z else sc1 in
+      let dd2 := if (0 <? dd1)%Z then (dd1 - 1)%Z else 0%Z in
+      ({| stack_count := sc2; display_depth := dd2;
+          setjmp_depth := setjmp_depth p; setjmp_count := setjmp_count p; lj_pending := false |}, Z.to_N dd2)
   end.
 Fixpoint rp_run (p : rp) (es : list sev) : list N :=
   match es with [] => [] | e :: r => let '(p', d) := rp_step p e in d :: rp_run p' r end.
 
 (* ground truth: the true number of open calls, with one saved depth per jmp_buf.  The EXIT that
-   follows a longjmp entry is the second return of the matching setjmp. *)
-Record gt := { g_depth : N; g_jb : list (N * N) }.
-Definition gt0 := {| g_depth := 0; g_jb := [] |}.
+   follows a longjmp entry is the second return of the matching setjmp (libmcount writes it right
+   after the longjmp's ENTRY), and every EXIT record carries the true depth of the call it closes. *)
+Record gt := { g_depth : N; g_jb : list (N * N); g_pend : bool }.
+Definition gt0 := {| g_depth := 0; g_jb := []; g_pend := false |}.
 Definition gt_step (g : gt) (e : sev) : option (gt * N) :=
   match e with
-  | SEntry SNormal => Some ({| g_depth := g_depth g + 1; g_jb := g_jb g |}, g_depth g)
-  | SEntry (SSetjmp jb) =>
-      Some ({| g_depth := g_depth g + 1; g_jb := (jb, g_depth g + 1) :: g_jb g |}, g_depth g)
-  | SEntry (SLongjmp jb) =>
-      match assoc jb (g_jb g) with
-      | Some d => Some ({| g_depth := d; g_jb := g_jb g |}, g_depth g)
-      | None => None
+  | SEntry k =>
+      if g_pend g then None else
+      match k with
+      | SNormal => Some ({| g_depth := g_depth g + 1; g_jb := g_jb g; g_pend := false |}, g_depth g)
+      | SSetjmp jb =>
+          Some ({| g_depth := g_depth g + 1; g_jb := (jb, g_depth g + 1) :: g_jb g; g_pend := false |}, g_depth g)
+      | SLongjmp jb =>
+          match assoc jb (g_jb g) with
+          | Some d => Some ({| g_depth := d; g_jb := g_jb g; g_pend := true |}, g_depth g)
+          | None => None
+          end
       end
-  | SExit => if 0 <? g_depth g then Some ({| g_depth := g_depth g - 1; g_jb := g_jb g |}, g_depth g - 1)
-             else None
+  | SExit d =>
+      if (0 <? g_depth g) && (d =? g_depth g - 1)
+      then Some ({| g_depth := g_depth g - 1; g_jb := g_jb g; g_pend := false |}, g_depth g - 1)
+      else None
   end.
 Fixpoint gt_run (g : gt) (es : list sev) : option (list N) :=
   match es with
@@ -711,29 +757,49 @@ Fixpoint gt_run (g : gt) (es : list sev) : option (list N) :=
               end
   end.
 
-(* guard: every longjmp goes to the jmp_buf of the most recent setjmp of the stream *)
-Fixpoint latest_only (last : option N) (es : list sev) : bool :=
-  match es with
-  | [] => true
-  | SEntry (SSetjmp jb) :: r => latest_only (Some jb) r
-  | SEntry (SLongjmp jb) :: r =>
-      match last with Some j => (j =? jb) && latest_only last r | None => false end
-  | _ :: r => latest_only last r
-  end.
+(* the record stream as replay reads it *)
+Definition sev_of (r : rec) : sev := match r_ty r with ENTRY => SEntry (r_kind r) | EXIT => SExit (r_depth r) end.
+Definition stream_of (o : list rec) : list sev := map sev_of o.
 
 Definition nlist_eqb := list_eqb N.eqb.
 (* the depths of the ENTRY records only (what one can read off replay's output: `f() {` / `f();` lines) *)
 Fixpoint entry_depths (es : list sev) (ds : list N) : list N :=
   match es, ds with
   | SEntry _ :: er, d :: dr => d :: entry_depths er dr
-  | SExit :: er, _ :: dr => entry_depths er dr
+  | SExit _ :: er, _ :: dr => entry_depths er dr
   | _, _ => []
   end.
-Definition ok_replay_entries (es : list sev) (shown : list N) : bool :=
-  match gt_run gt0 es with Some l => nlist_eqb (entry_depths es l) shown | None => false end.
-Definition agree_replay_entries (es : list sev) (shown : list N) : bool :=
-  nlist_eqb (entry_depths es (rp_run rp0 es)) shown.
 (* checker for a replayed stream: the depths shown are the true ones *)
 Definition ok_replay (es : list sev) (shown : list N) : bool :=
   match gt_run gt0 es with Some l => nlist_eqb l shown | None => false end.
 Definition agree_replay (es : list sev) (shown : list N) : bool := nlist_eqb (rp_run rp0 es) shown.
+Definition ok_replay_entries (es : list sev) (shown : list N) : bool :=
+  match gt_run gt0 es with Some l => nlist_eqb (entry_depths es l) shown | None => false end.
+Definition agree_replay_entries (es : list sev) (shown : list N) : bool :=
+  nlist_eqb (entry_depths es (rp_run rp0 es)) shown.
+
+(* checker for the record stream the implementation wrote in-process: classify its records with the kinds
+   (setjmp / longjmp and their jmp_buf) the program's operations imply, then ask the ground truth and the
+   replay model: every record must be accepted at the depth it carries, and replay must show that depth *)
+Definition impl_stream (ops : list op) (recs : list (N * N * N)) : option (list sev) :=
+  match lrun init ops with
+  | Some (s, _) =>
+      if Nat.eqb (length (out s)) (length recs)
+      then Some (map (fun p : rec * (N * N * N) =>
+                        let '(r, (ty, d, _)) := p in if ty =? 0 then SEntry (r_kind r) else SExit d)
+                     (combine (out s) recs))
+      else None
+  | None => None
+  end.
+Definition ok_stream (ops : list op) (recs : list (N * N * N)) : bool :=
+  match impl_stream ops recs with
+  | Some es =>
+      let ds := map (fun r : N * N * N => let '(_, d, _) := r in d) recs in
+      match gt_run gt0 es with
+      | Some l => nlist_eqb l ds && nlist_eqb (rp_run rp0 es) ds
+      | None => false
+      end
+  | None => true      (* different number of records: reported by agree_case as a disagreement *)
+  end.
+Definition fok2 (c : fcase) : bool :=
+  let '(ops, _, recs, _) := c in fok c && ok_stream ops (decode_recs recs).
